@@ -67,6 +67,11 @@ def _skip_form(t, base, w):
 
 
 def check(run):
+    from .c06 import depends_on
+    # what the reservoir holds is changed by its own update only: the explainer feeds the caller's storage object itself,
+    # the imputer only reads what get_data hands out
+    depends_on(run, "C15", {"DEFAULTS"}, only=lambda rule, inst: inst.endswith(".storage"))
+    depends_on(run, "C06", {"NOMUT"})
     _check_own(run)
     from .copylib import copy_protocol
     copy_protocol(run, run.prog, run.prog.find_class(CLS))    # a copied reservoir keeps its weight, skip target and arrival count
